@@ -520,7 +520,9 @@ struct MamEnv {
 static void runMamSeq(bool e2ee, bool instant, const std::vector<std::string> &ops)
 {
     MamEnv env(e2ee, instant);
-    corr(std::string("reset mam ") + (e2ee ? "1" : "0") + " " + (instant ? "1" : "0"), "ok");
+    // C07_MAM_FIXED=1: compare against the model of the library with fixes/C07-mam-empty-page.diff applied
+    static const bool fixedModel = getenv("C07_MAM_FIXED") != nullptr;
+    corr(std::string("reset mam ") + (e2ee ? "1" : "0") + " " + (instant ? "1" : "0") + (fixedModel ? " fixed" : ""), "ok");
     for (auto &op : ops) corr(op, env.apply(op));
     // closing suffix: let every outstanding decryption job report, then make sure the IQ has been answered
     for (size_t k = 0; k < env.e2ee.jobs.size(); k++)
@@ -555,6 +557,7 @@ struct MgrCase {
     // sets up extensions on the client and issues the request; increments *count on every completion
     std::function<void(TestClient &, QObject *, int *)> run;
     bool e2ee = false;
+    std::function<void(TestClient &, QObject *, int *)> run2;   // same request again, on the manager added by run
 };
 
 template<typename T>
@@ -563,40 +566,47 @@ static void countTask(QXmppTask<T> task, QObject *ctx, int *count)
     task.then(ctx, [count](T &&) { (*count)++; });
 }
 
+template<typename M, typename... A>
+static M *ext(TestClient &c, A... a)
+{
+    if (auto *m = c.findExtension<M>()) return m;
+    return c.addNewExtension<M>(a...);
+}
+
 static std::vector<MgrCase> mgrCases()
 {
     std::vector<MgrCase> v;
-    auto add = [&](const std::string &n, std::function<void(TestClient &, QObject *, int *)> f, bool e2ee = false) { v.push_back({ n, f, e2ee }); };
+    auto add = [&](const std::string &n, std::function<void(TestClient &, QObject *, int *)> f, bool e2ee = false) { v.push_back({ n, f, e2ee, f }); };
     add("client:sendIq", [](TestClient &c, QObject *x, int *n) { QXmppIq iq(QXmppIq::Get); iq.setTo(QStringLiteral("bob@rem.org/r")); countTask(c.sendIq(std::move(iq)), x, n); });
     add("client:sendGenericIq", [](TestClient &c, QObject *x, int *n) { QXmppIq iq(QXmppIq::Set); iq.setTo(QStringLiteral("own.org")); countTask(c.sendGenericIq(std::move(iq)), x, n); });
     add("client:sendSensitiveIq", [](TestClient &c, QObject *x, int *n) { QXmppIq iq(QXmppIq::Get); iq.setTo(QStringLiteral("bob@rem.org/r")); countTask(c.sendSensitiveIq(std::move(iq)), x, n); }, true);
-    add("disco:requestDiscoInfo", [](TestClient &c, QObject *x, int *n) { countTask(c.addNewExtension<QXmppDiscoveryManager>()->requestDiscoInfo(QStringLiteral("own.org")), x, n); });
-    add("disco:requestDiscoItems", [](TestClient &c, QObject *x, int *n) { countTask(c.addNewExtension<QXmppDiscoveryManager>()->requestDiscoItems(QStringLiteral("own.org")), x, n); });
-    add("time:requestEntityTime", [](TestClient &c, QObject *x, int *n) { countTask(c.addNewExtension<QXmppEntityTimeManager>()->requestEntityTime(QStringLiteral("bob@rem.org/r")), x, n); });
-    add("vcard:fetchVCard", [](TestClient &c, QObject *x, int *n) { countTask(c.addNewExtension<QXmppVCardManager>()->fetchVCard(QStringLiteral("bob@rem.org")), x, n); });
-    add("vcard:setVCard", [](TestClient &c, QObject *x, int *n) { countTask(c.addNewExtension<QXmppVCardManager>()->setVCard(QXmppVCardIq()), x, n); });
-    add("roster:addRosterItem", [](TestClient &c, QObject *x, int *n) { countTask(c.addNewExtension<QXmppRosterManager>(&c)->addRosterItem(QStringLiteral("bob@rem.org")), x, n); });
-    add("roster:removeRosterItem", [](TestClient &c, QObject *x, int *n) { countTask(c.addNewExtension<QXmppRosterManager>(&c)->removeRosterItem(QStringLiteral("bob@rem.org")), x, n); });
-    add("roster:renameRosterItem", [](TestClient &c, QObject *x, int *n) { countTask(c.addNewExtension<QXmppRosterManager>(&c)->renameRosterItem(QStringLiteral("bob@rem.org"), QStringLiteral("Bob")), x, n); });
-    add("pubsub:requestItems", [](TestClient &c, QObject *x, int *n) { countTask(c.addNewExtension<QXmppPubSubManager>()->requestItems<QXmppPubSubBaseItem>(QStringLiteral("pubsub.own.org"), QStringLiteral("node")), x, n); });
-    add("pubsub:requestItem", [](TestClient &c, QObject *x, int *n) { countTask(c.addNewExtension<QXmppPubSubManager>()->requestItem<QXmppPubSubBaseItem>(QStringLiteral("pubsub.own.org"), QStringLiteral("node"), QStringLiteral("item1")), x, n); });
-    add("pubsub:publishItem", [](TestClient &c, QObject *x, int *n) { QXmppPubSubBaseItem it(QStringLiteral("item1")); countTask(c.addNewExtension<QXmppPubSubManager>()->publishItem(QStringLiteral("pubsub.own.org"), QStringLiteral("node"), it), x, n); });
-    add("pubsub:publishItems", [](TestClient &c, QObject *x, int *n) { QVector<QXmppPubSubBaseItem> its { QXmppPubSubBaseItem(QStringLiteral("i1")), QXmppPubSubBaseItem(QStringLiteral("i2")) }; countTask(c.addNewExtension<QXmppPubSubManager>()->publishItems(QStringLiteral("pubsub.own.org"), QStringLiteral("node"), its), x, n); });
-    add("pubsub:requestNodes", [](TestClient &c, QObject *x, int *n) { countTask(c.addNewExtension<QXmppPubSubManager>()->requestNodes(QStringLiteral("pubsub.own.org")), x, n); });
-    add("pubsub:createInstantNode", [](TestClient &c, QObject *x, int *n) { countTask(c.addNewExtension<QXmppPubSubManager>()->createInstantNode(QStringLiteral("pubsub.own.org")), x, n); });
-    add("pubsub:requestItemIds", [](TestClient &c, QObject *x, int *n) { countTask(c.addNewExtension<QXmppPubSubManager>()->requestItemIds(QStringLiteral("pubsub.own.org"), QStringLiteral("node")), x, n); });
-    add("pubsub:requestSubscriptions", [](TestClient &c, QObject *x, int *n) { countTask(c.addNewExtension<QXmppPubSubManager>()->requestSubscriptions(QStringLiteral("pubsub.own.org")), x, n); });
-    add("pubsub:requestAffiliations", [](TestClient &c, QObject *x, int *n) { countTask(c.addNewExtension<QXmppPubSubManager>()->requestAffiliations(QStringLiteral("pubsub.own.org")), x, n); });
-    add("pubsub:requestNodeConfiguration", [](TestClient &c, QObject *x, int *n) { countTask(c.addNewExtension<QXmppPubSubManager>()->requestNodeConfiguration(QStringLiteral("pubsub.own.org"), QStringLiteral("node")), x, n); });
-    add("pubsub:requestSubscribeOptions", [](TestClient &c, QObject *x, int *n) { countTask(c.addNewExtension<QXmppPubSubManager>()->requestSubscribeOptions(QStringLiteral("pubsub.own.org"), QStringLiteral("node")), x, n); });
-    add("pubsub:requestOwnPepItemIds", [](TestClient &c, QObject *x, int *n) { countTask(c.addNewExtension<QXmppPubSubManager>()->requestOwnPepItemIds(QStringLiteral("node")), x, n); });
-    add("mam:retrieveMessages", [](TestClient &c, QObject *x, int *n) { countTask(c.addNewExtension<QXmppMamManager>()->retrieveMessages(), x, n); });
-    add("mam-e2ee:retrieveMessages", [](TestClient &c, QObject *x, int *n) { countTask(c.addNewExtension<QXmppMamManager>()->retrieveMessages(), x, n); }, true);
-    add("blocking:fetchBlocklist-x2", [](TestClient &c, QObject *x, int *n) { auto *m = c.addNewExtension<QXmppBlockingManager>(); countTask(m->fetchBlocklist(), x, n); countTask(m->fetchBlocklist(), x, n); });
-    add("blocking:block", [](TestClient &c, QObject *x, int *n) { countTask(c.addNewExtension<QXmppBlockingManager>()->block(QStringLiteral("eve@evil.org")), x, n); });
-    add("blocking:unblock", [](TestClient &c, QObject *x, int *n) { countTask(c.addNewExtension<QXmppBlockingManager>()->unblock(QStringLiteral("eve@evil.org")), x, n); });
-    add("upload:requestSlot", [](TestClient &c, QObject *x, int *n) { countTask(c.addNewExtension<QXmppUploadRequestManager>()->requestSlot(QStringLiteral("f.png"), 10, QMimeDatabase().mimeTypeForName(QStringLiteral("image/png")), QStringLiteral("upload.own.org")), x, n); });
-    add("extdisco:requestServices", [](TestClient &c, QObject *x, int *n) { countTask(c.addNewExtension<QXmppExternalServiceDiscoveryManager>()->requestServices(QStringLiteral("own.org")), x, n); });
+    add("disco:requestDiscoInfo", [](TestClient &c, QObject *x, int *n) { countTask(ext<QXmppDiscoveryManager>(c)->requestDiscoInfo(QStringLiteral("own.org")), x, n); });
+    add("disco:requestDiscoItems", [](TestClient &c, QObject *x, int *n) { countTask(ext<QXmppDiscoveryManager>(c)->requestDiscoItems(QStringLiteral("own.org")), x, n); });
+    add("time:requestEntityTime", [](TestClient &c, QObject *x, int *n) { countTask(ext<QXmppEntityTimeManager>(c)->requestEntityTime(QStringLiteral("bob@rem.org/r")), x, n); });
+    add("vcard:fetchVCard", [](TestClient &c, QObject *x, int *n) { countTask(ext<QXmppVCardManager>(c)->fetchVCard(QStringLiteral("bob@rem.org")), x, n); });
+    add("vcard:setVCard", [](TestClient &c, QObject *x, int *n) { countTask(ext<QXmppVCardManager>(c)->setVCard(QXmppVCardIq()), x, n); });
+    add("roster:addRosterItem", [](TestClient &c, QObject *x, int *n) { countTask(ext<QXmppRosterManager>(c, &c)->addRosterItem(QStringLiteral("bob@rem.org")), x, n); });
+    add("roster:removeRosterItem", [](TestClient &c, QObject *x, int *n) { countTask(ext<QXmppRosterManager>(c, &c)->removeRosterItem(QStringLiteral("bob@rem.org")), x, n); });
+    add("roster:renameRosterItem", [](TestClient &c, QObject *x, int *n) { countTask(ext<QXmppRosterManager>(c, &c)->renameRosterItem(QStringLiteral("bob@rem.org"), QStringLiteral("Bob")), x, n); });
+    add("pubsub:requestItems", [](TestClient &c, QObject *x, int *n) { countTask(ext<QXmppPubSubManager>(c)->requestItems<QXmppPubSubBaseItem>(QStringLiteral("pubsub.own.org"), QStringLiteral("node")), x, n); });
+    add("pubsub:requestItem", [](TestClient &c, QObject *x, int *n) { countTask(ext<QXmppPubSubManager>(c)->requestItem<QXmppPubSubBaseItem>(QStringLiteral("pubsub.own.org"), QStringLiteral("node"), QStringLiteral("item1")), x, n); });
+    add("pubsub:publishItem", [](TestClient &c, QObject *x, int *n) { QXmppPubSubBaseItem it(QStringLiteral("item1")); countTask(ext<QXmppPubSubManager>(c)->publishItem(QStringLiteral("pubsub.own.org"), QStringLiteral("node"), it), x, n); });
+    add("pubsub:publishItems", [](TestClient &c, QObject *x, int *n) { QVector<QXmppPubSubBaseItem> its { QXmppPubSubBaseItem(QStringLiteral("i1")), QXmppPubSubBaseItem(QStringLiteral("i2")) }; countTask(ext<QXmppPubSubManager>(c)->publishItems(QStringLiteral("pubsub.own.org"), QStringLiteral("node"), its), x, n); });
+    add("pubsub:requestNodes", [](TestClient &c, QObject *x, int *n) { countTask(ext<QXmppPubSubManager>(c)->requestNodes(QStringLiteral("pubsub.own.org")), x, n); });
+    add("pubsub:createInstantNode", [](TestClient &c, QObject *x, int *n) { countTask(ext<QXmppPubSubManager>(c)->createInstantNode(QStringLiteral("pubsub.own.org")), x, n); });
+    add("pubsub:requestItemIds", [](TestClient &c, QObject *x, int *n) { countTask(ext<QXmppPubSubManager>(c)->requestItemIds(QStringLiteral("pubsub.own.org"), QStringLiteral("node")), x, n); });
+    add("pubsub:requestSubscriptions", [](TestClient &c, QObject *x, int *n) { countTask(ext<QXmppPubSubManager>(c)->requestSubscriptions(QStringLiteral("pubsub.own.org")), x, n); });
+    add("pubsub:requestAffiliations", [](TestClient &c, QObject *x, int *n) { countTask(ext<QXmppPubSubManager>(c)->requestAffiliations(QStringLiteral("pubsub.own.org")), x, n); });
+    add("pubsub:requestNodeConfiguration", [](TestClient &c, QObject *x, int *n) { countTask(ext<QXmppPubSubManager>(c)->requestNodeConfiguration(QStringLiteral("pubsub.own.org"), QStringLiteral("node")), x, n); });
+    add("pubsub:requestSubscribeOptions", [](TestClient &c, QObject *x, int *n) { countTask(ext<QXmppPubSubManager>(c)->requestSubscribeOptions(QStringLiteral("pubsub.own.org"), QStringLiteral("node")), x, n); });
+    add("pubsub:requestOwnPepItemIds", [](TestClient &c, QObject *x, int *n) { countTask(ext<QXmppPubSubManager>(c)->requestOwnPepItemIds(QStringLiteral("node")), x, n); });
+    add("mam:retrieveMessages", [](TestClient &c, QObject *x, int *n) { countTask(ext<QXmppMamManager>(c)->retrieveMessages(), x, n); });
+    add("mam-e2ee:retrieveMessages", [](TestClient &c, QObject *x, int *n) { countTask(ext<QXmppMamManager>(c)->retrieveMessages(), x, n); }, true);
+    add("blocking:fetchBlocklist-x2", [](TestClient &c, QObject *x, int *n) { auto *m = ext<QXmppBlockingManager>(c); countTask(m->fetchBlocklist(), x, n); countTask(m->fetchBlocklist(), x, n); });
+    add("blocking:block", [](TestClient &c, QObject *x, int *n) { countTask(ext<QXmppBlockingManager>(c)->block(QStringLiteral("eve@evil.org")), x, n); });
+    add("blocking:unblock", [](TestClient &c, QObject *x, int *n) { countTask(ext<QXmppBlockingManager>(c)->unblock(QStringLiteral("eve@evil.org")), x, n); });
+    add("upload:requestSlot", [](TestClient &c, QObject *x, int *n) { countTask(ext<QXmppUploadRequestManager>(c)->requestSlot(QStringLiteral("f.png"), 10, QMimeDatabase().mimeTypeForName(QStringLiteral("image/png")), QStringLiteral("upload.own.org")), x, n); });
+    add("extdisco:requestServices", [](TestClient &c, QObject *x, int *n) { countTask(ext<QXmppExternalServiceDiscoveryManager>(c)->requestServices(QStringLiteral("own.org")), x, n); });
     return v;
 }
 
@@ -637,6 +647,33 @@ static void runManagerLayer()
                     if (a == "error") c.inject(head + QL(" type='error'><error type='cancel'><service-unavailable xmlns='") + Q(NS_STANZA) + QL("'/></error></iq>"));
                     else c.inject(head + QL(" type='result'/>"));
                     if (count != before) oracleFail("C07:mgr:" + mc.name + ":duplicate-reply-completes-again", mc.name + " " + a);
+                }
+                // the same API once more on the same manager (stale per-manager state must not swallow it)
+                if (a == "empty-result" || a == "error" || a == "unexpected-payload") {
+                    int count2 = 0;
+                    handled = c.sent.size();
+                    mc.run2 ? mc.run2(c, &ctx, &count2) : (void)0;
+                    int r2 = 0;
+                    while (mc.run2 && r2 < 6) {
+                        int k = handled;
+                        for (; k < c.sent.size(); k++) if (c.sent[k].startsWith(QL("<iq")) && attrOf(c.sent[k], QStringLiteral("type")) != QL("error") && attrOf(c.sent[k], QStringLiteral("type")) != QL("result")) break;
+                        if (k >= c.sent.size()) break;
+                        handled = k + 1; r2++;
+                        QString id = attrOf(c.sent[k], QStringLiteral("id")), to = attrOf(c.sent[k], QStringLiteral("to"));
+                        QString head = QL("<iq xmlns='jabber:client' id='") + id + QL("'") + (to.isEmpty() ? QString() : QL(" from='") + to + QL("'")) + QL(" to='me@own.org/res'");
+                        if (a == "error") c.inject(head + QL(" type='error'><error type='cancel'><service-unavailable xmlns='") + Q(NS_STANZA) + QL("'/></error></iq>"));
+                        else if (a == "unexpected-payload") c.inject(head + QL(" type='result'><junk xmlns='urn:verif:junk'><x y='1'>text</x></junk></iq>"));
+                        else c.inject(head + QL(" type='result'/>"));
+                        QCoreApplication::processEvents();
+                    }
+                    if (mc.run2) {
+                        c.closeSession(false);
+                        if (count2 != expected) {
+                            bool mamKnown = mc.name == "mam-e2ee:retrieveMessages" && count2 == 0 && a != "error";
+                            oracleFail(mamKnown ? "C07:mam:e2ee-empty-page-never-finishes" : "C07:mgr:" + mc.name + ":" + a + ":second-call-completions=" + std::to_string(count2),
+                                       "manager layer: " + mc.name + " called a second time after the first call was answered with " + a);
+                        } else oraclePass()++;
+                    }
                 }
                 // the session ends and cannot be resumed: whatever is still pending must complete now
                 c.closeSession(false);
@@ -692,12 +729,26 @@ int main(int argc, char **argv)
     for (auto &f : froms) big.push_back("recv iq error a " + f);
     for (auto s : { "closed 1", "closed 0", "opened 1", "opened 0", "fail a", "fail b", "failall", "ackall", "destroy" }) big.push_back(s);
     std::vector<std::string> cur;
-    int dSmall = thorough ? 6 : 5, dBig = thorough ? 4 : 3;
+    std::vector<std::string> tiny = {
+        "send a -", "send a " + A1, "recv iq result a -", "recv iq result a " + A1, "recv iq error a eve@evil.org", "recv iq error a " + OWN,
+        "closed 1", "closed 0", "fail a",
+    };
+    std::vector<std::string> medium;
+    for (auto &i : ids) for (auto &t : tos) medium.push_back("send " + i + " " + t);
+    for (auto &f : froms) medium.push_back("recv iq result a " + f);
+    for (auto s : { "recv iq result b bob@rem.org/r", "closed 1", "closed 0", "opened 0", "fail a", "failall", "destroy" }) medium.push_back(s);
+    int dSmall = 5, dBig = 3;
     if (a.mode == "fast") { dSmall = 3; dBig = 2; }
     for (int d = 1; d <= dSmall; d++) enumIq(small, d, cur);
     for (int d = 1; d <= dBig; d++) enumIq(big, d, cur);
     stat("exhaustive_depth_small", dSmall); stat("alphabet_small", (long long)small.size());
     stat("exhaustive_depth_big", dBig); stat("alphabet_big", (long long)big.size());
+    if (thorough) {
+        enumIq(tiny, 6, cur);
+        enumIq(medium, 4, cur);
+        stat("exhaustive_depth_tiny", 6); stat("alphabet_tiny", (long long)tiny.size());
+        stat("exhaustive_depth_medium", 4); stat("alphabet_medium", (long long)medium.size());
+    }
 
     // ---- Part A: random, full alphabet, depth up to 40
     std::vector<std::string> rids = { "a", "b", "c", "-", "~0", "~1", "~2" };
@@ -738,10 +789,16 @@ int main(int argc, char **argv)
     runMamSeq(true, false, { "start", "msg 1 1", "msg 1 0", "fin", "dec 0" });
     runMamSeq(false, false, { "start", "fin" });
     std::vector<std::string> malpha = { "start", "msg 1 0", "msg 1 1", "msg 0 0", "fin", "err", "dec 0", "dec 1" };
-    int dMam = thorough ? 6 : 5;
-    if (a.mode == "fast") dMam = 3;
+    int dMam = a.mode == "fast" ? 3 : 4;
     for (int d = 1; d <= dMam; d++) enumMam(malpha, d, cur);
     stat("exhaustive_depth_mam", dMam); stat("alphabet_mam", (long long)malpha.size());
+    // after "start": everything but a second start, two levels deeper
+    std::vector<std::string> malpha2(malpha.begin() + 1, malpha.end());
+    int dMam2 = a.mode == "fast" ? 3 : thorough ? 6 : 5;
+    cur.push_back("start");
+    enumMam(malpha2, dMam2 + 1, cur);
+    cur.clear();
+    stat("exhaustive_depth_mam_after_start", dMam2); stat("alphabet_mam_after_start", (long long)malpha2.size());
     int nmam = thorough ? 6000 : 800;
     for (int n = 0; n < nmam; n++) {
         int len = 2 + rng.below(14);
